@@ -61,6 +61,9 @@ class ExcludeRegionState(object):  # pylint: disable=too-many-instance-attribute
         to perform Z-axis moves when exiting an excluded region (e.g. before or after X/Y moves)
     gcodeParser : GcodeParser
         GcodeParser instance for extracting data from a line of Gcode
+    priorExtruderPosition : float | None
+        The native extruder position the printer is at before the command currently being
+        processed by processLinearMoves is sent, or None when no such command is in progress.
     pendingCommands : ordereddict of Gcode commands and their arguments
         Storage for pending commands to execute when exiting an excluded area.  Stored either as
         (gcode -> {argName->value, ...}) for EXCLUDE_MERGE, or as (gcode -> commandString) for
@@ -115,6 +118,7 @@ class ExcludeRegionState(object):  # pylint: disable=too-many-instance-attribute
         self.numCommands = 0
         self.lastRetraction = None
         self.lastPosition = None
+        self.priorExtruderPosition = None
         self.pendingCommands = OrderedDict()
 
     def getRegion(self, regionId):
@@ -463,7 +467,16 @@ class ExcludeRegionState(object):  # pylint: disable=too-many-instance-attribute
                 lastRetraction
             )
 
+            # The recovery is sent before cmd, i.e. while the printer's extruder is still at the
+            # position it had before cmd.  Generate it relative to that position so cmd itself
+            # still extrudes the amount the file specifies.
+            eAxis = self.position.E_AXIS
+            endE = eAxis.current
+            if (self.priorExtruderPosition is not None):
+                eAxis.current = self.priorExtruderPosition
+
             returnCommands = lastRetraction.generateRecoverCommands(self.position)
+            eAxis.current = endE
 
         self.lastRetraction = None
 
@@ -657,6 +670,7 @@ class ExcludeRegionState(object):  # pylint: disable=too-many-instance-attribute
 
         eAxis = self.position.E_AXIS
         priorE = eAxis.current
+        self.priorExtruderPosition = priorE
         if (extruderPosition is not None):
             # Update axis position and convert local var from logical units to millimeters/minute
             extruderPosition = eAxis.setLogicalPosition(extruderPosition)
@@ -724,6 +738,8 @@ class ExcludeRegionState(object):  # pylint: disable=too-many-instance-attribute
                 "processLinearMoves: returnCommands=%s, endPosition=%s",
                 returnCommands, self.position
             )
+
+        self.priorExtruderPosition = None
 
         if (not returnCommands):
             returnCommands = self.ignoreGcodeCommand()
